@@ -14,7 +14,8 @@ def sh(cmd, cwd, timeout=1500):
 def main():
     pid = sys.argv[1]
     name = sys.argv[2] if len(sys.argv) > 2 else pid.lower() + "-agent"
-    wt = "/tmp/wt/" + pid
+    wt = os.environ.get("SEED_WT_ROOT", "/tmp/wt") + "/" + pid
+    prop = pid[:3]
     patch = open(wt + "/MUTANT.diff").read()
     demo = open(wt + "/DEMO_test.go.txt").read()
     pkg = re.search(r"^package (\w+)", demo, re.M).group(1).replace("_test", "")
@@ -49,7 +50,7 @@ def main():
     open(dst + "/demo_test.go.txt", "w").write(demo)
     shutil.copy(wt + "/README.txt", dst + "/agent_README.txt")
     fails = [l for l in out1.splitlines() if "FAIL" in l or "panic" in l][:6]
-    meta = {"property": pid, "source": "independent sub-agent given only the property text and a scratch worktree",
+    meta = {"property": prop, "source": "independent sub-agent given only the property text and a scratch worktree",
             "demo_package_dir": pdir, "demo_tests": tests,
             "confirmed": {"suite_with_change": "go build ./... && go test -vet=off -count=1 ./... : pass",
                           "demo_with_change": f"go test -run '{run}' ./{pdir}/ : FAIL", "demo_without_change": "same command: ok",
